@@ -4,6 +4,7 @@ package main
 // Every stub here is part of each claim (listed in the evidence under stubs_used).
 
 import (
+	"crypto/sha1"
 	"fmt"
 	"go/types"
 	"hash/crc32"
@@ -39,6 +40,8 @@ func (e *Exec) callHostMethod(caller *frame, m *hostMethod, args []Value) Value 
 		}
 	case "ctx":
 		return e.ctxMethod(caller, m.recv.data.(*ctxObj), m.name, args)
+	case "hash":
+		return e.hashMethod(caller, m.recv.data.(*hashState), m.name, args)
 	}
 	panic(e.unsupported("host method %s.%s", m.recv.kind, m.name))
 }
@@ -532,5 +535,307 @@ func init() {
 		tab = append(tab, uniqueEntry{e.copyVal(a[0]), obj})
 		e.hostState[key] = tab
 		return &Agg{elems: []Value{Ptr{obj: obj}}}
+	})
+}
+
+// ---- crypto: sha1 (uninterpreted when symbolic), rand (fresh symbols), ed25519 (uninterpreted) ----
+
+type hashState struct {
+	kind string
+	data []*Term
+}
+
+func (e *Exec) newHashIface(kind string) Value {
+	return Iface{t: e.prog.hostHashType, v: &Host{kind: "hash", data: &hashState{kind: kind}}}
+}
+
+// sha1Digest returns the 20 digest bytes of the given input bytes.
+func (e *Exec) sha1Digest(in []*Term) []*Term {
+	conc := true
+	raw := make([]byte, len(in))
+	for i, b := range in {
+		if !b.IsConst() {
+			conc = false
+			break
+		}
+		raw[i] = byte(b.c)
+	}
+	out := make([]*Term, 20)
+	if conc {
+		d := sha1.Sum(raw)
+		for i := range out {
+			out[i] = e.tt.BV(8, uint64(d[i]))
+		}
+		return out
+	}
+	ufo := e.ufBytes("uf_sha1", in, 20, true)
+	copy(out, ufo)
+	e.stubUsed("crypto/sha1 as uninterpreted function (injective over the applications on a path)")
+	return out
+}
+
+func (e *Exec) stubUsed(s string) {
+	e.prog.mu.Lock()
+	e.prog.stubsUsed[s] = true
+	e.prog.mu.Unlock()
+}
+
+func (e *Exec) hashMethod(caller *frame, h *hashState, name string, args []Value) Value {
+	switch name {
+	case "Write":
+		bs := e.byteTerms(args[0].(Slice))
+		h.data = append(h.data, bs...)
+		return tupleOf(e.intT(int64(len(bs))), Iface{})
+	case "Reset":
+		h.data = nil
+		return nil
+	case "Size":
+		return e.intT(20)
+	case "BlockSize":
+		return e.intT(64)
+	case "Sum":
+		d := e.sha1Digest(h.data)
+		vals := make([]Value, len(d))
+		for i, x := range d {
+			vals[i] = x
+		}
+		return e.appendValues(args[0].(Slice), vals, types.Typ[types.Byte])
+	}
+	panic(e.unsupported("hash method %s", name))
+}
+
+// appendValues appends element values to a slice with Go's append semantics.
+func (e *Exec) appendValues(s Slice, add []Value, et types.Type) Slice {
+	if len(add) == 0 {
+		return s
+	}
+	n := s.len + len(add)
+	if n <= s.cap && !s.IsNil() {
+		e.noteWrite(s.obj)
+		arr := e.sliceBacking(s)
+		for i, x := range add {
+			arr.elems[s.off+s.len+i] = x
+		}
+		return Slice{obj: s.obj, path: s.path, off: s.off, len: n, cap: s.cap}
+	}
+	newCap := s.cap * 2
+	if newCap < n {
+		newCap = n
+	}
+	arr := &Agg{elems: make([]Value, newCap)}
+	for i, x := range e.sliceElems(s) {
+		arr.elems[i] = e.copyVal(x)
+	}
+	for i, x := range add {
+		arr.elems[s.len+i] = x
+	}
+	for i := n; i < newCap; i++ {
+		arr.elems[i] = e.zero(et)
+	}
+	obj := e.newObject(types.NewArray(et, int64(newCap)), arr, "append")
+	return Slice{obj: obj, len: n, cap: newCap}
+}
+
+func init() {
+	reg("crypto/sha1.New", func(e *Exec, c *frame, fn *ssa.Function, a []Value) Value { return e.newHashIface("sha1") })
+	reg("(crypto.Hash).New", func(e *Exec, c *frame, fn *ssa.Function, a []Value) Value {
+		h := a[0].(*Term)
+		if !h.IsConst() || h.ConstU() != 3 {
+			panic(e.unsupported("crypto.Hash.New for hash other than SHA1"))
+		}
+		return e.newHashIface("sha1")
+	})
+	reg("crypto/sha1.Sum", func(e *Exec, c *frame, fn *ssa.Function, a []Value) Value {
+		d := e.sha1Digest(e.byteTerms(a[0].(Slice)))
+		out := &Agg{elems: make([]Value, 20)}
+		for i, x := range d {
+			out.elems[i] = x
+		}
+		return out
+	})
+	randRead := func(e *Exec, c *frame, fn *ssa.Function, a []Value) Value {
+		s := a[0].(Slice)
+		if s.len > 0 {
+			e.noteWrite(s.obj)
+			arr := e.sliceBacking(s)
+			for i := 0; i < s.len; i++ {
+				arr.elems[s.off+i] = e.freshVar("rnd8", 8)
+			}
+		}
+		e.stubUsed("crypto/rand, math/rand: fresh unconstrained symbols")
+		return tupleOf(e.intT(int64(s.len)), Iface{})
+	}
+	reg("crypto/rand.Read", randRead)
+	reg("math/rand.Read", randRead)
+	reg("math/rand.Intn", func(e *Exec, c *frame, fn *ssa.Function, a []Value) Value {
+		n := a[0].(*Term)
+		v := e.freshVar("rnd64", 64)
+		e.addPC(e.tt.Cmp(OpULt, v, n))
+		return v
+	})
+	reg("math/rand.Int63n", intrinsics["math/rand.Intn"])
+}
+
+
+// ufBytes applies an uninterpreted function from a byte vector to outLen bytes. With injective set, the
+// axiom "equal outputs imply equal inputs" is added for every pair of applications on the current path.
+func (e *Exec) ufBytes(name string, in []*Term, outLen int, injective bool) []*Term {
+	out := make([]*Term, outLen)
+	base := fmt.Sprintf("%s_len%d", name, len(in))
+	for i := range out {
+		out[i] = e.tt.App(fmt.Sprintf("%s_b%d", base, i), Sort{8}, in...)
+	}
+	if !injective {
+		return out
+	}
+	key := "ufapps:" + base
+	var apps [][]*Term
+	if x, ok := e.hostState[key]; ok {
+		apps = x.([][]*Term)
+	}
+	for _, prev := range apps {
+		same := make([]*Term, len(in))
+		for i := range in {
+			same[i] = e.tt.Eq(prev[i], in[i])
+		}
+		argsEq := e.tt.And(same...)
+		if argsEq.IsTrue() {
+			continue
+		}
+		dig := make([]*Term, outLen)
+		for i := range dig {
+			dig[i] = e.tt.Eq(e.tt.App(fmt.Sprintf("%s_b%d", base, i), Sort{8}, prev...), out[i])
+		}
+		e.addPC(e.tt.Implies(e.tt.And(dig...), argsEq))
+	}
+	apps = append(apps, in)
+	e.hostState[key] = apps
+	return out
+}
+
+// opaqueString: the textual form of symbolic bytes is not modelled; it is a fixed-length string of
+// uninterpreted, injective bytes (formatting is never the subject of a property).
+func (e *Exec) opaqueString(kind string, in []*Term) Str {
+	e.stubUsed("string forms of symbolic IPs/addresses: opaque injective strings (" + kind + ")")
+	return e.mkStr(e.ufBytes("uf_str_"+kind, in, 8, true))
+}
+
+func allConst(ts []*Term) bool {
+	for _, t := range ts {
+		if !t.IsConst() {
+			return false
+		}
+	}
+	return true
+}
+
+func init() {
+	reg("(net.IP).String", func(e *Exec, c *frame, fn *ssa.Function, a []Value) Value {
+		bs := e.byteTerms(a[0].(Slice))
+		if allConst(bs) {
+			return e.runFunction(c, 0, fn, a, nil)
+		}
+		return e.opaqueString(fmt.Sprintf("ip%d", len(bs)), bs)
+	})
+	reg("(*net.UDPAddr).String", func(e *Exec, c *frame, fn *ssa.Function, a []Value) Value {
+		p := a[0].(Ptr)
+		if p.IsNil() {
+			return Str{s: "<nil>"}
+		}
+		ua := e.loadRaw(p).(*Agg)
+		ip := ua.elems[0].(Slice)
+		port := ua.elems[1].(*Term)
+		bs := e.byteTerms(ip)
+		if allConst(bs) && port.IsConst() {
+			return e.runFunction(c, 0, fn, a, nil)
+		}
+		in := append(append([]*Term{}, bs...), e.tt.Extract(port, 15, 8), e.tt.Extract(port, 7, 0))
+		return e.opaqueString(fmt.Sprintf("udp%d", len(bs)), in)
+	})
+	reg("(unique.Handle).Value", func(e *Exec, c *frame, fn *ssa.Function, a []Value) Value {
+		h := a[0].(*Agg)
+		return e.load(h.elems[0].(Ptr))
+	})
+}
+
+// ---- hash/maphash: uninterpreted, collision-free over the applications on a path ----
+
+type maphashState struct {
+	seed *Term
+	data []*Term
+}
+
+func (e *Exec) maphashOf(p Ptr) *maphashState {
+	key := fmt.Sprintf("maphash:%d:%v", p.obj.id, p.path)
+	if m, ok := e.hostState[key]; ok {
+		return m.(*maphashState)
+	}
+	m := &maphashState{seed: e.tt.BV(64, 0)}
+	e.hostState[key] = m
+	return m
+}
+
+func init() {
+	reg("hash/maphash.MakeSeed", func(e *Exec, c *frame, fn *ssa.Function, a []Value) Value {
+		e.stubUsed("hash/maphash: uninterpreted function of (seed, bytes), assumed collision-free")
+		return &Agg{elems: []Value{e.freshVar("seed64", 64)}}
+	})
+	reg("(*hash/maphash.Hash).SetSeed", func(e *Exec, c *frame, fn *ssa.Function, a []Value) Value {
+		m := e.maphashOf(a[0].(Ptr))
+		m.seed = a[1].(*Agg).elems[0].(*Term)
+		m.data = nil
+		return nil
+	})
+	reg("(*hash/maphash.Hash).WriteString", func(e *Exec, c *frame, fn *ssa.Function, a []Value) Value {
+		m := e.maphashOf(a[0].(Ptr))
+		bs := e.strBytes(a[1].(Str))
+		m.data = append(m.data, bs...)
+		return tupleOf(e.intT(int64(len(bs))), Iface{})
+	})
+	reg("(*hash/maphash.Hash).Write", func(e *Exec, c *frame, fn *ssa.Function, a []Value) Value {
+		m := e.maphashOf(a[0].(Ptr))
+		bs := e.byteTerms(a[1].(Slice))
+		m.data = append(m.data, bs...)
+		return tupleOf(e.intT(int64(len(bs))), Iface{})
+	})
+	reg("(*hash/maphash.Hash).Reset", func(e *Exec, c *frame, fn *ssa.Function, a []Value) Value {
+		e.maphashOf(a[0].(Ptr)).data = nil
+		return nil
+	})
+	reg("(*hash/maphash.Hash).Sum64", func(e *Exec, c *frame, fn *ssa.Function, a []Value) Value {
+		m := e.maphashOf(a[0].(Ptr))
+		in := append([]*Term{}, m.data...)
+		name := fmt.Sprintf("uf_maphash_len%d", len(in))
+		args := append([]*Term{m.seed}, in...)
+		out := e.tt.App(name, Sort{64}, args...)
+		key := "ufapps:" + name
+		var apps [][]*Term
+		if x, ok := e.hostState[key]; ok {
+			apps = x.([][]*Term)
+		}
+		for _, prev := range apps {
+			same := make([]*Term, len(args))
+			for i := range args {
+				same[i] = e.tt.Eq(prev[i], args[i])
+			}
+			argsEq := e.tt.And(same...)
+			if argsEq.IsTrue() {
+				continue
+			}
+			e.addPC(e.tt.Implies(e.tt.Eq(e.tt.App(name, Sort{64}, prev...), out), argsEq))
+		}
+		// different lengths never collide either
+		for k, x := range e.hostState {
+			if strings.HasPrefix(k, "ufapps:uf_maphash_len") && k != key {
+				for _, prev := range x.([][]*Term) {
+					if prev[0] == m.seed {
+						e.addPC(e.tt.Not(e.tt.Eq(e.tt.App(strings.TrimPrefix(k, "ufapps:"), Sort{64}, prev...), out)))
+					}
+				}
+			}
+		}
+		apps = append(apps, args)
+		e.hostState[key] = apps
+		return out
 	})
 }
